@@ -623,7 +623,7 @@ def generate(ctx):
         for second in slot_alphabet():
             cases += cases_for_journal([first, second])
     maxlen = ctx.scale(8, 12)
-    for _ in range(ctx.scale(14, 120)):
+    for _ in range(ctx.scale(12, 120)):
         cases += cases_for_journal(random_journal(ctx.rng, ctx.rng.randrange(3, maxlen + 1)))
     cases += malformed_cases(ctx.rng, ctx.scale(300, 3000))
     return cases
@@ -639,7 +639,14 @@ def _worker(chunk):
     out = []
     for case in chunk:
         try:
-            out.append(run_case(case))
+            o = run_case(case)
+            # the oracle and the class predicates are evaluated here too (in parallel)
+            o["breaches"] = check_property(case, o)
+            o["classes"] = classify(case, o)
+            o["in_domain"] = in_theorem_domain(case, o)
+            o["request"] = model_request(case, o)
+            o["projection"] = impl_projection(o)
+            out.append(o)
         except Exception as e:      # a harness-side problem: reported as a broken case, never hidden
             out.append({"harness_error": "%s: %s" % (type(e).__name__, e)})
     faulthandler.cancel_dump_traceback_later()
@@ -669,7 +676,7 @@ def evaluate(ctx, cases, use_model=True):
     model_out = [None] * len(cases)
     good = [i for i, o in enumerate(obs) if "harness_error" not in o]
     if use_model and ctx.model:
-        res = ctx.model.batch([model_request(cases[i], obs[i]) for i in good])
+        res = ctx.model.batch([obs[i]["request"] for i in good])
         for i, r in zip(good, res):
             model_out[i] = r
     t2 = time.time()
@@ -682,15 +689,15 @@ def evaluate(ctx, cases, use_model=True):
             continue
         b = req_int(case["begin"])
         nontriv = b is not None and req_int(case["end"]) is not None and 1 <= b < o["pre"]["nout"]
-        ip = impl_projection(o)
+        ip = o["projection"]
         ctx.case(canon(case), nontriv,
                  sample={"case": case, "reply": [(w[1], w[0]) for w in o["wire"]], "state_after": o["post"]["state"],
                          "nout_after": o["post"]["nout"]} if (nontriv and len(ctx.samples) < 6 and len(case["slots"]) > 3 and ctx.rng.random() < 0.02) else None)
         ctx.traces += 1
-        cls = classify(case, o)
+        cls = o["classes"]
         ctx.count("state=" + case["state"])
         ctx.count("len=%d" % len(case["slots"]))
-        ctx.count("class=" + (cls[0] if cls else ("theorem-domain" if in_theorem_domain(case, o) else "invalid-harmless")))
+        ctx.count("class=" + (cls[0] if cls else ("theorem-domain" if o["in_domain"] else "invalid-harmless")))
         for s in case["slots"]:
             ctx.count("slot=" + s)
         if m is not None:
@@ -698,15 +705,44 @@ def evaluate(ctx, cases, use_model=True):
             if mp_ != ip:
                 keys = [k for k in ip if mp_.get(k) != ip[k]] if "model_error" not in mp_ else ["model_error"]
                 ctx.disagree(case, {k: ip[k] for k in keys}, {k: mp_.get(k) for k in keys}, "resend:" + ",".join(keys))
-        bad = check_property(case, o)
+        bad = o["breaches"]
         if bad:
             ctx.fail(case, "; ".join(bad), cls[0] if cls else None)
-        elif in_theorem_domain(case, o):
+        elif o["in_domain"]:
             ctx.count("theorem-domain-ok")
 
 
+# the witnesses of the *_refuted theorems of Props/C06.v, in the harness's case syntax
+WITNESSES = {
+    "C06_bounded_end_refuted": ({"slots": ["A", "D", "D", "D"], "begin": "2", "end": "2", "state": "ACTIVE"}, "C06-bounded-end"),
+    "C06_second_request_refuted": ({"slots": ["A", "Dl", "Dl"], "begin": "2", "end": "0", "state": "ACTIVE"}, "C06-leftover-copy-in-range"),
+    "C06_begin_beyond_refuted": ({"slots": ["A", "D"], "begin": "5", "end": "0", "state": "ACTIVE"}, "C06-begin-beyond"),
+    "C06_begin_nonpositive_refuted": ({"slots": ["A", "D"], "begin": "0", "end": "0", "state": "ACTIVE"}, "C06-begin-nonpositive"),
+    "C06_unparsable_refuted": ({"slots": ["A", "D"], "begin": "x", "end": "0", "state": "ACTIVE"}, "C06-request-unparsable"),
+    "C06_hole_refuted": ({"slots": ["A", "D", "Dh", "D", "D"], "begin": "2", "end": "0", "state": "ACTIVE"}, "C06-hole-before-replayed"),
+}
+
+
+def confirm_witnesses(ctx):
+    """Replay the witness of every refuted theorem on the implementation: it must break the property and fall
+    into exactly the class the theorem names."""
+    out = {}
+    for thm, (case, cls) in WITNESSES.items():
+        o = run_case(case)
+        bad = check_property(case, o)
+        got = classify(case, o)
+        out[thm] = {"case": case, "class": cls, "classes_accepting": got, "breach": "; ".join(bad)[:300],
+                    "confirmed": bool(bad) and got == [cls]}
+        if not bad:
+            ctx.notes.append("note: known finding %s (%s) no longer reproduces on the implementation" % (cls, thm))
+        elif got != [cls]:
+            ctx.disagree(case, got, [cls], "witness-class:" + thm)
+    ctx.extra["refuted_witnesses_on_implementation"] = out
+
+
 def run(ctx):
-    cases = generate(ctx)
+    confirm_witnesses(ctx)
+    cases = [w[0] for w in WITNESSES.values()] + generate(ctx)
     evaluate(ctx, cases)
 
 
